@@ -1,0 +1,17 @@
+//go:build verif
+// +build verif
+
+package socks5
+
+import (
+	"io"
+	"net"
+	"time"
+)
+
+// Exports for the verification harness (build tag "verif"); add-only, no behaviour change.
+
+// VerifNewSocksConn wraps conn in the package's socksConn (per-call read/write deadlines).
+func VerifNewSocksConn(conn net.Conn, timeout time.Duration) io.ReadWriter {
+	return &socksConn{conn: conn, timeout: timeout}
+}
